@@ -5,6 +5,7 @@ import (
 	"errors"
 	"fmt"
 	"io"
+	"math"
 
 	"github.com/btcsuite/btcd/btcec/v2"
 )
@@ -359,6 +360,15 @@ func DBigSize(r io.Reader, val interface{}, buf *[8]byte, l uint64) error {
 		if err != nil {
 			return err
 		}
+
+		// Reject values that don't fit into the target type instead
+		// of silently truncating them.
+		if v > math.MaxUint32 {
+			return NewTypeForDecodingErr(
+				val, "BigSize", l, VarIntSize(v),
+			)
+		}
+
 		*i = uint32(v)
 		return nil
 	}
